@@ -246,12 +246,20 @@ def rule_alias(ctx):
         fi = ka.fi
         snap = _snapshot_idiom(fi, 'self.data', 'rhs.data')
         readers = [g for g in ka.gvars if g in ('rhs.data', 'rhs_data') or getattr(ka, 'alias_of', {}).get(g) in ('rhs.data',)]
+        # names bound to the object itself (`retval = self`) write the same storage
+        ws = ['self.data']
+        for st in walk_no_nested(fi.node):
+            if isinstance(st, ast.Assign) and isinstance(st.value, ast.Name) and st.value.id == 'self':
+                for t in st.targets:
+                    if isinstance(t, ast.Name) and (t.id + '.data') in ka.gvars:
+                        ws.append(t.id + '.data')
         for R in sorted(set(readers)):
             if snap is not None and R == snap:
                 r.ok(construct=fi.fq + ':snapshot', nontrivial=True,
                      sample='%s: `%s` is replaced by a copy when it may share memory with self.data (snapshot idiom)' % (fi.qualname, snap))
                 continue
-            check(ka, fi, 'self.data', R, 'x op= x')
+            for W in ws:
+                check(ka, fi, W, R, 'x op= x')
     # (b) kernels of Test_aliasing: every out-role array against every input array
     for k in ALIAS_TESTED:
         if k not in res:
